@@ -37,7 +37,7 @@ FLOOR = {"ccp:pointer-fold-idx": 1, "cc:TorchTensorDotLayer": 1, "cc:TorchTucker
 
 
 def plan(tier, seed):
-    n = 9 if tier == "quick" else 810
+    n = 18 if tier == "quick" else 810
     cases = []
     for k in range(n):
         for kind in ("base", "base-mono", "base-complex", "square", "sq-conj-int", "mul-int", "multiply", "index", "zero-boundary", "tiny-exp", "partly-frozen"):
